@@ -531,6 +531,10 @@ def run_e2e(run, case):
                 detail = check_be_file(dst.getvalue(), pairs, prop)
                 if detail is not None:
                     detail = ("after defragment",) + tuple(detail)
+        if detail is None:
+            # the same raw values handed to the writer in the two other accepted forms: a TimestampArray in
+            # big-endian field order (what raw reads of a big-endian segment yield) and a list of TdmsTimestamp
+            detail = check_other_raw_inputs(raw)
     except Exception as e:
         detail = ("exception", repr(e))
     if detail is None:
@@ -538,6 +542,31 @@ def run_e2e(run, case):
     else:
         key = "us-roundtrip" if "datetime" in detail[0] else "end-to-end"
         report(run, key, "writer -> reader does not preserve timestamps: %r" % (detail,), case, actual=detail)
+
+
+def check_other_raw_inputs(raw):
+    n = len(raw)
+    be = np.zeros(n, dtype=[("seconds", ">i8"), ("second_fractions", ">u8")])
+    be["seconds"] = raw["seconds"]
+    be["second_fractions"] = raw["second_fractions"]
+    as_list = [TdmsTimestamp(int(s), int(f)) for s, f in zip(raw["seconds"], raw["second_fractions"])]
+    buf = io.BytesIO()
+    with TdmsWriter(buf) as w:
+        w.write_segment([ChannelObject("g", "be", TimestampArray(be)), ChannelObject("g", "i", np.arange(n, dtype="int32"))])
+        if n:
+            w.write_segment([ChannelObject("g", "lst", as_list)])
+        w.write_segment([ChannelObject("g", "i", np.arange(n, dtype="int32"))])
+    rf = TdmsFile.read(io.BytesIO(buf.getvalue()), raw_timestamps=True)
+    for name in (["be", "lst"] if n else ["be"]):
+        got = rf["g"][name][:]
+        if [int(x) for x in got.seconds] != [int(x) for x in raw["seconds"]] or \
+                [int(x) for x in got.second_fractions] != [int(x) for x in raw["second_fractions"]]:
+            return ("raw channel written from %s" % ("a big-endian TimestampArray" if name == "be" else
+                                                     "a list of TdmsTimestamp"),
+                    [int(x) for x in got.seconds][:2], [int(x) for x in got.second_fractions][:2])
+    if len(rf["g"]["i"]) != 2 * n:
+        return ("raw channel written from other forms: following channel", len(rf["g"]["i"]))
+    return None
 
 
 def check_file(content, ds, pd, py_us, raw, raw_prop):
